@@ -859,6 +859,17 @@ def r4(ctx):
                 n = count_nots(b, backslice(b, [t['op']]))
                 okg = b.dominates(ft if n % 2 == 0 else tt, c.bb)
         ctx.check(okg, rule, P + '|ignore-flag', c.where(), 'ignore files apply unless --no-ignore', 'the ignore test is not controlled by !self.no_ignore')
+        # ... and, like the hidden test, not to the input paths themselves: at level 0 the stack holds only the global excludes of git
+        okr = False
+        for cmp in comparisons(b):
+            names_ = backslice(b, [cmp.a]).param_names(b) | backslice(b, [cmp.b]).param_names(b)
+            if 'level' in names_:
+                br = branch_of(b, cmp)
+                if br and (b.dominates(br[1], c.bb) != b.dominates(br[2], c.bb)):
+                    okr = True
+        ctx.check(okr, rule, P + '|ignore-not-roots', c.where(), 'the ignore test is applied below the input paths only (guarded by the nesting level)',
+                  'the ignore test is applied to the input paths themselves: at level 0 the stack holds the global excludes of git (core.excludesFile, ~/.config/git/ignore), so `fclones group build` '
+                  'with `build/` in that file - or `fclones group x.bak y.bak` with `*.bak` - scans nothing and says nothing, although the user named these paths')
     # dispatch: every entry type goes to its visitor
     disp = {c.path.rsplit('::', 1)[-1] for c in b.calls(r"Walk::<'a>::visit_(file|dir|link)$")}
     ctx.check(disp == {'visit_file', 'visit_dir', 'visit_link'}, rule, P + '|dispatch', b.where(), 'files, directories and links are dispatched to their visitors', 'dispatch covers only %s' % sorted(disp))
